@@ -109,6 +109,7 @@ type c39run struct {
 	lateDials int         // idle configuration: further clients that dial, call and close one after the other
 	lateGo    simrt.Event // set when A has closed (or the settle phase begins): the late clients start
 	acceptErr int         // >0: after that many yields the listener's pending or next Accept fails once with an ordinary error (EMFILE-like)
+	flood     int         // >0: that many concurrent callers on EACH side call a method the peer answers from its read loop
 }
 
 type msgRec struct {
@@ -322,6 +323,15 @@ func (c39) NewRun(plan *simrt.Source, job *harn.Job) harn.Run {
 	if plan.Chance(80) || (r.idle > 0 && plan.Chance(300)) {
 		r.acceptErr = 1 + plan.Draw(60)
 	}
+	if plan.Chance(25) {
+		// scale: a flood of concurrent calls in both directions, all answered from
+		// the peers' read loops, over whatever transport the run drew
+		r.flood = 70 + plan.Draw(60)
+		r.second, r.idle, r.lateDials, r.acceptErr, r.strat.TimerP = 0, 0, 0, 0, 0
+	}
+	if v, ok := job.Knobs["flood"]; ok {
+		r.flood = v
+	}
 	if v, ok := job.Knobs["idle"]; ok {
 		r.idle = v
 		if v > 0 && r.strat.TimerP == 0 {
@@ -335,7 +345,7 @@ func (c39) NewRun(plan *simrt.Source, job *harn.Job) harn.Run {
 	}
 	if r.raw {
 		r.second = 0
-		r.idle, r.lateDials, r.strat.TimerP, r.acceptErr = 0, 0, 0, 0
+		r.idle, r.lateDials, r.strat.TimerP, r.acceptErr, r.flood = 0, 0, 0, 0, 0
 		var keep []taskPlan
 		for _, t := range r.tasks {
 			if t.Ep == 0 {
@@ -358,6 +368,9 @@ func (c39) NewRun(plan *simrt.Source, job *harn.Job) harn.Run {
 	}
 	if r.idle > 0 {
 		r.net.Desc += fmt.Sprintf(" + server behind NewIdleListener(%dms), early-expiry rate %d/1000, %d late clients", r.idle, r.strat.TimerP, r.lateDials)
+	}
+	if r.flood > 0 {
+		r.net.Desc += fmt.Sprintf(" + flood: %d concurrent callers on each side calling peek", r.flood)
 	}
 	if r.acceptErr > 0 {
 		r.net.Desc += fmt.Sprintf(" + Accept fails once with an ordinary error after %d yields", r.acceptErr)
@@ -1093,6 +1106,20 @@ func (r *c39run) Body(s *simrt.Sim) {
 	if r.lateDials > 0 {
 		r.tasksAll++
 		simrt.Go("late-clients", r.lateClients)
+	}
+	if r.flood > 0 && r.eps[1].conn != nil {
+		r.sim.Probe("flood")
+		for side := 0; side < 2; side++ {
+			ep := r.eps[side]
+			for k := 0; k < r.flood; k++ {
+				name := fmt.Sprintf("%s.flood%d", ep.name, k)
+				r.tasksAll++
+				simrt.Go(name, func() {
+					r.doCall(ep, name, opPlan{Kind: "call", Method: "peek", Awaiters: 1})
+					r.tasksDone++
+				})
+			}
+		}
 	}
 	if r.second > 0 {
 		r.tasksAll++
